@@ -15,12 +15,14 @@ namespace Props
 
 /-- (tie) regenerated from `lib_priv.rs`, `networking/assets/mod.rs`, both `track.rs` and both `receiver.rs`:
 debounce entries are counted (D6 repaired), a download is queued whether or not this peer serves the uuid
-itself (mesh shortcut repaired), the worker stores what it fetched into the uuid's slot, `process_*` files
+itself (mesh shortcut repaired), the worker stores what it fetched into the uuid's slot — after the whole body has arrived and only if no newer request for the
+uuid was made meanwhile (the model's `fetch` is one action) —, `process_*` files
 one entry per applied download, `react_*` = debounce, serve, announce, both receivers request and the host
 relays; `serve_*` overwrites (`Generated.httpServeOverwrites`); materials travel inline -/
 theorem C06_code_tie :
     Generated.assetTokensCounted = true ∧ Generated.assetRequestSkipsServed = false ∧
-    Generated.assetWorkerStoresIntoSlot = true ∧ Generated.assetProcessFilesToken = true ∧
+    Generated.assetWorkerStoresIntoSlot = true ∧ Generated.assetNewestRequestWins = true ∧
+    Generated.assetProcessFilesToken = true ∧
     Generated.assetReactDebounceServeAnnounce = true ∧ Generated.assetReceiversRequestAndRelay = true ∧
     Generated.assetMaterialInlinePath = true ∧ Generated.httpServeOverwrites = true := by
   decide
